@@ -9,6 +9,8 @@ impl ActTask for Workflow {
                     data.set(k, v.clone());
                 }
             });
+            // the process row was written before the model's env was applied
+            ctx.runtime.cache().store().upsert_proc(&ctx.proc)?;
         }
 
         // run setup
